@@ -13,8 +13,8 @@ ID = "C10"
 COQ_IMPORT = "Corr.CNodes"
 COQ_CASE_TYPE = "g_case"
 COQ_CHECK = "g_check"
-THEOREMS = ["c10_terminates", "c10_fuel_bound", "c10_fuel_irrelevant", "c10_step_frame", "c10_names", "c10_frame", "c10_untouched_partial", "c10_graph_frame"]
-PROOF_FILES = ["Proofs/InferProofs.v"]
+THEOREMS = ["c10_terminates", "c10_fuel_bound", "c10_fuel_irrelevant", "c10_step_frame", "c10_names", "c10_frame", "c10_untouched_partial", "c10_graph_frame", "c10_idempotent", "c10_idempotent_canonical"]
+PROOF_FILES = ["Proofs/InferProofs.v", "Proofs/IdemProofs.v"]
 RULE = ("directed multigraphs over {Input, typed leaves, untyped Conv/Pool/Flatten, Output, rarely nested graphs} "
         "with cycles, self-loops, parallel edges, fan-in/out, unreachable components, edges into Inputs / out of "
         "Outputs, dangling endpoints; random to 12 nodes / 30 edges plus consistent graphs with erasures; thorough: "
@@ -179,6 +179,8 @@ def run(c):
                                  for n in g.nodes.values() if type(n).__name__ == "Input")
         if all_inputs_defined:
             for name in reach:
+                if name not in g.nodes:
+                    continue
                 n = g.nodes[name]
                 if type(n).__name__ == "NIRGraph":
                     continue
